@@ -155,7 +155,8 @@ AfterOrder == phase \in {"ordered", "done"}
 
 TypeOK == /\ phase \in {"idle", "duals", "hull", "extracted", "ordered", "done"}
           /\ sh \in DOMAIN Shapes /\ sc \in Scales
-          /\ phase = "duals" => (Bounded(pl, XT) /\ DistinctDirections(pl, XT) /\ Separated(V, Shapes[sh].Q * sc[2]))
+          /\ phase = "duals" => (Bounded(pl, XT) /\ DistinctDirections(pl, XT) /\ Separated(V, Shapes[sh].Q * sc[2])
+                                  /\ Compact(V, Shapes[sh].Q * sc[2]))
 
 (* the code's vertex formula, from whichever corner, is Cramer's solution; and the simplices *)
 (* of the dual hull are exactly the plane triples whose common point violates no inequality  *)
